@@ -933,3 +933,11 @@ func (env *rEnv) field(n *rNode) Value {
 	}
 	return env.fail("cannot select .%s on %s (%s)", f, nodeText(n.Args[0]), showValue(base))
 }
+
+func mustParseRSL(src string) *rNode {
+	n, err := parseRSL(src)
+	if err != nil {
+		panic(err)
+	}
+	return n
+}
